@@ -6,7 +6,6 @@ import (
 	"github.com/cockroachdb/errors"
 	"github.com/cockroachdb/errors/errorspb"
 	"github.com/cockroachdb/redact"
-	"verifh/gen"
 	"verifh/sym"
 	"verifh/wire"
 )
@@ -65,11 +64,7 @@ func piiFreeOutputs(v *sym.V, tag string, e error) {
 func H_C03_NoLeak(v *sym.V) {
 	g := newG(v, sym.REGNN)
 	g.ClsUnsafe = sym.TOK
-	leaves, wrappers := gen.AllLeaves, gen.AllWrappers
-	if v.Param("multi", 1) == 0 {
-		leaves = gen.Cat(gen.LibLeaves, gen.ForeignLeaves, gen.BarrierLeaves)
-	}
-	b := g.BuildUpTo("e", v.Param("D", 2), leaves, wrappers)
+	b := build(v, g, "e")
 	e := b.Err
 	tag := b.Kinds[0].String()
 	switch v.Choice("stage", 3) {
